@@ -19,6 +19,15 @@
                                                           isSubGraphInterrupt (extractor "intrerr") on error
                                                           chains (Model/IntrGenLib.v: gerr; errors.As walks the
                                                           chain, a type assertion looks at its head)
+     gen_interrupt_lists_reach_runner                     extractor "intrcfg": WithInterruptBeforeNodes / WithInterruptAfterNodes
+                                                          (compose/interrupt.go) and the two assignments of graph.compile:
+                                                          the runner tests against exactly the lists the application gave
+     gen_handle_interrupt_agrees, gen_handle_sub_rerun_agrees, gen_handle_sub_rerun_is_rerun_interrupt
+                                                          extractor "intrhandle": handleInterrupt = plain_interrupt,
+                                                          handleInterruptWithSubGraphAndRerunNodes = handle_sub_rerun (= rerun_interrupt),
+                                                          each with the exit of the handlers: a nested graph hands (information,
+                                                          checkpoint) to its parent, a top-level run writes the checkpoint iff an id
+                                                          was given, and returns the information
      handle_sub_rerun_agrees                              the classification BY LOOKUP that
                                                           handleInterruptWithSubGraphAndRerunNodes performs
                                                           (Model/IntrGenLib.v: handle_sub_rerun) vs the
@@ -39,7 +48,7 @@
    Gen file is the neutral one and the statements hold trivially ([tie_available = false] for the loop). *)
 From Coq Require Import String Lia Permutation.
 From Eino Require Import Base.Util Model.RunLoop Model.IntrGenLib Proofs.RunLoop.
-From Eino Require Gen.IntrHit Gen.IntrResolve Gen.IntrLoop Gen.IntrErr.
+From Eino Require Gen.IntrHit Gen.IntrResolve Gen.IntrLoop Gen.IntrErr Gen.IntrCfg Gen.IntrHandle.
 Open Scope N_scope.
 
 (* ---------- getHitKey ---------- *)
@@ -648,6 +657,167 @@ Section LoopAgree.
   Qed.
 End LoopAgree.
 
+(* ---------- handleInterrupt / handleInterruptWithSubGraphAndRerunNodes as translated (extractor "intrhandle") ----------
+   The records checkpoint / InterruptInfo are flattened into one variable per field; what is returned is
+   [HToParent info cp] (a nested graph: &subGraphInterruptError), [HInterrupt info cp written] (&interruptError;
+   [written] = checkPointer.set was called) — Model/IntrGenLib.v: hexit, exit_of. The state saved is the one found in
+   the context of a graph that declares state ([state_view]); the model's loops carry it as their graph state. *)
+Section HandleAgree.
+  Context {V CS GS SCP SINFO : Type}.
+  Notation tex := (@texec V SCP SINFO).
+  Variable zero : V.
+  Variable fold : CS -> list (N * V) -> res CS.
+
+  Lemma put_pending : forall (l : list (N * V)) acc,
+    for_range (R := hexit V CS GS SCP SINFO) (fun t cp_Inputs => let cp_Inputs := map_put (fst t) (snd t) cp_Inputs in CNext cp_Inputs) l acc
+    = inl (acc ++ l).
+  Proof.
+    induction l as [|[k v] l IH]; intros acc; simpl; [rewrite app_nil_r; reflexivity|].
+    rewrite IH. unfold map_put. rewrite <- app_assoc. reflexivity.
+  Qed.
+
+  (* handleInterrupt as translated *)
+  Theorem gen_handle_interrupt_agrees : @Gen.IntrHandle.tie_available = true ->
+    forall has_state ctx_state (gs_nil : GS) hb ha (next : list (N * V)) (cs : CS) isStream isSub hasId,
+    Gen.IntrHandle.handle_interrupt (SCP := SCP) (SINFO := SINFO) has_state ctx_state gs_nil hb ha next cs isStream isSub hasId
+    = exit_of isSub hasId (plain_interrupt cs (state_view has_state ctx_state gs_nil) next hb ha).
+  Proof.
+    intros Hav; first [ discriminate Hav | clear Hav;
+    intros has_state ctx_state gs_nil hb ha next cs isStream isSub hasId;
+    unfold Gen.IntrHandle.handle_interrupt, plain_interrupt, exit_of, state_view;
+    destruct has_state; [destruct ctx_state|]; cbv zeta; rewrite put_pending; cbn [app];
+    destruct isSub; try reflexivity; destruct hasId; reflexivity ].
+  Qed.
+
+  Lemma rr_inner : forall (t : N * tex) rr (rrT : list (N * tex)),
+    for_range (R := hexit V CS GS SCP SINFO) (fun key '(rerunTasks, rerun) =>
+        if (N.eqb key (fst t)) then
+          let rerunTasks := (rerunTasks ++ [t]) in
+          let rerun := true in
+          CBreak (rerunTasks, rerun)
+        else
+          CNext (rerunTasks, rerun)) rr (rrT, false)
+    = inl (if memN (fst t) rr then (rrT ++ [t], true) else (rrT, false)).
+  Proof.
+    intros t rr; induction rr as [|a rr IH]; intros rrT; simpl; [reflexivity|].
+    rewrite (N.eqb_sym (fst t) a). destruct (N.eqb a (fst t)); simpl; [reflexivity|apply IH].
+  Qed.
+
+  Lemma partition_loop : forall (subs : list (N * (SCP * SINFO))) rr (tasks : list (N * tex)) rr0 sb0 ot0 (sk0 : list (N * bool)),
+    for_range (R := hexit V CS GS SCP SINFO) (fun t '(rerunTasks, subgraphTasks, otherTasks, skipPreHandler) =>
+        match map_get (fst t) subs with
+        | Some _ =>
+            let subgraphTasks := (subgraphTasks ++ [t]) in
+            let skipPreHandler := map_put (fst t) true skipPreHandler in
+            CNext (rerunTasks, subgraphTasks, otherTasks, skipPreHandler)
+        | None =>
+            let rerun := false in
+            match for_range (fun key '(rerunTasks, rerun) =>
+                if (N.eqb key (fst t)) then
+                  let rerunTasks := (rerunTasks ++ [t]) in
+                  let rerun := true in
+                  CBreak (rerunTasks, rerun)
+                else
+                  CNext (rerunTasks, rerun)) rr (rerunTasks, rerun) with
+            | inr r => CRet r
+            | inl (rerunTasks, rerun) =>
+                if (negb rerun) then
+                  let otherTasks := (otherTasks ++ [t]) in
+                  CNext (rerunTasks, subgraphTasks, otherTasks, skipPreHandler)
+                else
+                  CNext (rerunTasks, subgraphTasks, otherTasks, skipPreHandler)
+            end
+        end) tasks (rr0, sb0, ot0, sk0)
+    = inl (rr0 ++ filter (fun t => negb (in_sub subs t) && memN (fst t) rr) tasks,
+           sb0 ++ filter (in_sub subs) tasks,
+           ot0 ++ filter (fun t => negb (in_sub subs t) && negb (memN (fst t) rr)) tasks,
+           sk0 ++ map (fun t => (fst t, true)) (filter (in_sub subs) tasks)).
+  Proof.
+    intros subs rr tasks; induction tasks as [|t tasks IH]; intros rr0 sb0 ot0 sk0; simpl.
+    - rewrite !app_nil_r; reflexivity.
+    - assert (Hin : in_sub subs t = match map_get (fst t) subs with Some _ => true | None => false end) by reflexivity.
+      destruct (map_get (fst t) subs) as [ci|]; rewrite Hin; cbv zeta.
+      + rewrite IH. unfold map_put. cbn [negb andb app map]. rewrite <- !app_assoc. reflexivity.
+      + rewrite rr_inner. destruct (memN (fst t) rr); cbn [negb andb app map]; rewrite IH; rewrite <- ?app_assoc; reflexivity.
+  Qed.
+
+  Lemma sub_loop : forall (isStream : bool) (subs : list (N * (SCP * SINFO))) (l : list (N * tex))
+      (inp : list (N * V)) (cps : list (N * SCP)) (infos : list (N * SINFO)),
+    for_range (R := hexit V CS GS SCP SINFO) (fun t '(cp_Inputs, cp_SubGraphs, intInfo_SubGraphs) =>
+        if isStream then
+          let cp_Inputs := map_put (fst t) zero cp_Inputs in
+          let cp_SubGraphs := map_put_opt (fst t) (option_map sub_interrupt_CheckPoint (map_get (fst t) subs)) cp_SubGraphs in
+          let intInfo_SubGraphs := map_put_opt (fst t) (option_map sub_interrupt_Info (map_get (fst t) subs)) intInfo_SubGraphs in
+          CNext (cp_Inputs, cp_SubGraphs, intInfo_SubGraphs)
+        else
+          let cp_Inputs := map_put (fst t) zero cp_Inputs in
+          let cp_SubGraphs := map_put_opt (fst t) (option_map sub_interrupt_CheckPoint (map_get (fst t) subs)) cp_SubGraphs in
+          let intInfo_SubGraphs := map_put_opt (fst t) (option_map sub_interrupt_Info (map_get (fst t) subs)) intInfo_SubGraphs in
+          CNext (cp_Inputs, cp_SubGraphs, intInfo_SubGraphs)) l (inp, cps, infos)
+    = inl (inp ++ map (fun t : N * tex => (fst t, zero)) l,
+           cps ++ flat_map (fun t : N * tex => match map_get (fst t) subs with Some ci => [(fst t, fst ci)] | None => [] end) l,
+           infos ++ flat_map (fun t : N * tex => match map_get (fst t) subs with Some ci => [(fst t, snd ci)] | None => [] end) l).
+  Proof.
+    intros isStream subs l; induction l as [|t l IH]; intros inp cps infos; simpl.
+    - rewrite !app_nil_r; reflexivity.
+    - destruct isStream; cbv zeta; rewrite IH; unfold map_put_opt, sub_interrupt_CheckPoint, sub_interrupt_Info;
+        destruct (map_get (fst t) subs) as [[c i]|]; cbn [option_map fst snd]; unfold map_put; cbn [app];
+        rewrite <- ?app_assoc; rewrite ?app_nil_r; reflexivity.
+  Qed.
+
+  Lemma rerun_loop : forall (isStream : bool) (l : list (N * tex)) (inp : list (N * V)),
+    for_range (R := hexit V CS GS SCP SINFO) (fun t cp_Inputs =>
+        if isStream then
+          let cp_Inputs := map_put (fst t) zero cp_Inputs in
+          CNext cp_Inputs
+        else
+          let cp_Inputs := map_put (fst t) zero cp_Inputs in
+          CNext cp_Inputs) l inp
+    = inl (inp ++ map (fun t : N * tex => (fst t, zero)) l).
+  Proof.
+    intros isStream l; induction l as [|t l IH]; intros inp; simpl.
+    - rewrite app_nil_r; reflexivity.
+    - destruct isStream; cbv zeta; rewrite IH; unfold map_put; rewrite <- app_assoc; reflexivity.
+  Qed.
+
+  Lemma skip_keys_true : forall (l : list (N * tex)), skip_keys (map (fun t : N * tex => (fst t, true)) l) = map fst l.
+  Proof. unfold skip_keys; induction l as [|t l IH]; simpl; [reflexivity|]. f_equal; exact IH. Qed.
+
+  (* handleInterruptWithSubGraphAndRerunNodes as translated: the hand-written mirror [handle_sub_rerun] of
+     Model/IntrGenLib.v (classification of the completed tasks BY LOOKUP) with the exit of both handlers *)
+  Theorem gen_handle_sub_rerun_agrees : @Gen.IntrHandle.tie_available = true ->
+    forall has_state ctx_state (gs_nil : GS) rr (subs : list (N * (SCP * SINFO))) ha (complete : list (N * tex)) hb
+           (pending : list (N * V)) hasId isSub (cs : CS) isStream,
+    Gen.IntrHandle.handle_interrupt_with_sub_graph_and_rerun_nodes zero fold has_state ctx_state gs_nil
+        rr subs ha complete hb pending hasId isSub cs isStream
+    = exit_of isSub hasId (handle_sub_rerun zero fold cs (state_view has_state ctx_state gs_nil) rr subs ha complete hb pending).
+  Proof.
+    intros Hav; first [ discriminate Hav | clear Hav;
+    intros has_state ctx_state gs_nil rr subs ha complete hb pending hasId isSub cs isStream;
+    unfold Gen.IntrHandle.handle_interrupt_with_sub_graph_and_rerun_nodes, handle_sub_rerun, state_view;
+    cbv zeta; rewrite partition_loop; cbn [app];
+    destruct (fold cs (outs (filter (fun t => negb (in_sub subs t) && negb (memN (fst t) rr)) complete))) as [cs1|e|];
+      try reflexivity;
+    destruct has_state; [destruct ctx_state|];
+    rewrite put_pending, sub_loop, rerun_loop; cbn [app]; rewrite skip_keys_true; rewrite <- ?app_assoc; unfold exit_of;
+    destruct isSub; try reflexivity; destruct hasId; reflexivity ].
+  Qed.
+
+  (* ... hence, when the tasks have pairwise distinct node keys and the lists come out of
+     resolveInterruptCompletedTasks, the model's [rerun_interrupt] with the exit of the handlers *)
+  Corollary gen_handle_sub_rerun_is_rerun_interrupt : @Gen.IntrHandle.tie_available = true ->
+    forall has_state ctx_state (gs_nil : GS) ha (rs : list (N * tex)) hb (pending : list (N * V)) hasId isSub (cs : CS) isStream,
+    NoDup (map fst rs) ->
+    Gen.IntrHandle.handle_interrupt_with_sub_graph_and_rerun_nodes zero fold has_state ctx_state gs_nil
+        (reruns rs) (subpairs rs) ha rs hb pending hasId isSub cs isStream
+    = exit_of isSub hasId (rerun_interrupt zero fold cs (state_view has_state ctx_state gs_nil) rs (outs rs) pending hb ha).
+  Proof.
+    intros Hav has_state ctx_state gs_nil ha rs hb pending hasId isSub cs isStream Hnd.
+    rewrite gen_handle_sub_rerun_agrees by assumption. rewrite handle_sub_rerun_agrees by assumption. reflexivity.
+  Qed.
+End HandleAgree.
+
+
 (* ---------- non-vacuity ---------- *)
 Example gen_get_hit_key_witness :
   In 2 (Gen.IntrHit.get_hit_key [(2, tt); (3, tt)] [5; 2]) /\ ~ In 3 (Gen.IntrHit.get_hit_key [(2, tt); (3, tt)] [5; 2]).
@@ -746,3 +916,15 @@ Example gen_extract_witness :
   /\ Gen.IntrErr.extract_interrupt_info (INFO := N) (CP := N) (Some (EWrap (ESubInterrupt 7 8))) = (None, false)
   /\ Gen.IntrErr.extract_interrupt_info (INFO := N) (CP := N) None = (None, false).
 Proof. repeat split; reflexivity. Qed.
+
+(* ---------- how the lists reach the runner (compose/interrupt.go, graph.compile) ---------- *)
+(* whatever options were set before, in whatever order the two options are applied, and whatever an unknown
+   function would do to a list (so none may be applied): the runner's interrupt-before list is the list handed
+   to WithInterruptBeforeNodes, its interrupt-after list the one handed to WithInterruptAfterNodes — the lists
+   [gs_before] / [gs_after] of the model *)
+Theorem gen_interrupt_lists_reach_runner : forall unk (before after : list N) (o : copts),
+  let o1 := Gen.IntrCfg.with_interrupt_after_nodes unk after (Gen.IntrCfg.with_interrupt_before_nodes unk before o) in
+  let o2 := Gen.IntrCfg.with_interrupt_before_nodes unk before (Gen.IntrCfg.with_interrupt_after_nodes unk after o) in
+  Gen.IntrCfg.runner_interrupt_before_nodes unk o1 = before /\ Gen.IntrCfg.runner_interrupt_after_nodes unk o1 = after /\
+  Gen.IntrCfg.runner_interrupt_before_nodes unk o2 = before /\ Gen.IntrCfg.runner_interrupt_after_nodes unk o2 = after.
+Proof. intros unk before after o; repeat split; reflexivity. Qed.
